@@ -64,6 +64,7 @@ pub fn eval(case: &Case) -> Verdict {
     let mut boundary = false;
     let mut special = false;
     let mut wide = false;
+    let mut deep = false;
     for v in &case.values {
         ra::walk(v, &mut |n| match n {
             V::Obj(p) => {
@@ -84,6 +85,12 @@ pub fn eval(case: &Case) -> Verdict {
                     wide = true;
                 }
             }
+            V::Deep { depth, .. } => {
+                nested = true;
+                if *depth >= 64 {
+                    deep = true;
+                }
+            }
             V::Str(s) => {
                 if s.len() >= 65534 {
                     boundary = true;
@@ -102,6 +109,8 @@ pub fn eval(case: &Case) -> Verdict {
     obs.class_if(boundary, "boundary-length-string-or-name");
     obs.class_if(special, "nan-or-negative-zero");
     obs.class_if(wide, "container-with-1024-or-more-children");
+    obs.class_if(deep, "chain-of-64-or-more-nested-containers");
+    obs.class_if(case.values.iter().any(|v| ra::deepest(v) > 128), "nested-deeper-than-128");
     obs.class_if(empty_key, "empty-key-roundtripped");
     obs.class_if(case.values.is_empty(), "empty-list");
     obs.nontrivial = nested || boundary || special || wide;
@@ -109,7 +118,7 @@ pub fn eval(case: &Case) -> Verdict {
 }
 
 fn with_empty_key() -> BoxedStrategy<Case> {
-    let cfg = AmfCfg { wire: false, too_long: false, empty_names: true, max_depth: 2 };
+    let cfg = AmfCfg { wire: false, too_long: false, empty_names: true, max_depth: 2, chain: 0 };
     (
         gen::amf_values(AmfCfg::SMALL, 2),
         gen::amf_value(AmfCfg::SMALL),
